@@ -16,7 +16,7 @@ RULE = ("identities drawn over the whole domain (vendor / product-type ids 0..65
         "with 0..5 UDP replies; every returned field is compared with the configured identity; ModuleIdentityObject.decode(encode(d)) == d. "
         "distinct = (entry point, vendor known?, type known?, serial nibble class, name length class) evaluated")
 ASSUMPTIONS = [
-    "vendor / product-type texts are the entries of the library's VENDORS / PRODUCT_TYPES tables, 'UNKNOWN' for ids not in them",
+    "vendor / product-type texts: the ODVA lists as shipped at the pinned commit (vlib/data/identity_tables.json, 1457 vendors / 41 device types); ids added later take the library's text; 'UNKNOWN' otherwise",
     "serial is rendered as 8 lower-case hex digits; status as the 2 raw bytes",
 ]
 ANCHORS = [
@@ -37,10 +37,17 @@ def run(ctx):
     vend_ids = sorted(k for k in VENDORS if isinstance(k, int))
     type_ids = sorted(k for k in PTYPES if isinstance(k, int))
 
+    import json
+    import os
+    gold = json.load(open(os.path.join(common.VERIF_DIR, "vlib", "data", "identity_tables.json")))
+    gold_v = {int(k): v for k, v in gold["vendors"].items()}
+    gold_t = {int(k): v for k, v in gold["product_types"].items()}
+
     def expected(idn, list_identity=False):
         d = {
-            "vendor": VENDORS[idn.vendor] if idn.vendor in vend_ids else "UNKNOWN",
-            "product_type": PTYPES[idn.product_type] if idn.product_type in type_ids else "UNKNOWN",
+            # ids of the ODVA lists as shipped at the pinned commit keep their names; ids added later take the library's text
+            "vendor": gold_v.get(idn.vendor, VENDORS[idn.vendor] if idn.vendor in vend_ids else "UNKNOWN"),
+            "product_type": gold_t.get(idn.product_type, PTYPES[idn.product_type] if idn.product_type in type_ids else "UNKNOWN"),
             "product_code": idn.product_code, "revision": {"major": idn.major, "minor": idn.minor},
             "status": idn.status, "serial": f"{idn.serial:08x}", "product_name": idn.name,
         }
@@ -98,6 +105,11 @@ def run(ctx):
                 for slot, m in sorted(mods.items()):
                     st, got = b.call("get_module_info", drv.get_module_info, slot)
                     compare("get_module_info", got, m.identity)
+                # modules are replaced / change state while the driver stays open: a later query must show the new identity
+                for slot, m in sorted(mods.items())[:3]:
+                    m.identity = devices.random_identity(rng, vend_ids, type_ids)
+                    st, got = b.call("get_module_info", drv.get_module_info, slot)
+                    compare("get_module_info(again)", got, m.identity)
                 b.call("close", drv.close)
             else:
                 res.violation("open-failed", f"open() -> {out!r:.200}", None)
@@ -159,6 +171,23 @@ def run(ctx):
         except ScenarioDead:
             continue
 
+    # ---- every vendor id and every product-type id 0..65535 through both identity decoders (no network needed) ---------------
+    base = rt.Identity()
+    for vid in range(65536):
+        if not ctx.mine(vid):
+            continue
+        for field in ("vendor", "product_type"):
+            idn = rt.Identity(vendor=vid if field == "vendor" else 1, product_type=vid if field == "product_type" else 0x0E, serial=vid * 65537 & 0xFFFFFFFF, name=base.name)
+            want = expected(idn)[field]
+            res.ev()
+            try:
+                got1 = p.ModuleIdentityObject.decode(idn.object_bytes())[field]
+                got2 = p.custom_types.ListIdentityObject.decode(idn.list_identity_item())[field]
+            except Exception as e:  # noqa
+                got1 = got2 = e
+            if got1 != want or got2 != want:
+                res.violation(f"id-table:{field}", f"{field} id {vid} decodes to {got1!r} (Identity object) / {got2!r} (ListIdentity); expected {want!r}", {"field": field, "id": vid})
+    res.seen("id-sweep", "all 65536 vendor and product-type ids")
     # ---- encode / decode identity -----------------------------------------------------------------------------
     vnames = sorted(k for k in VENDORS if isinstance(k, str))
     tnames = sorted(k for k in PTYPES if isinstance(k, str))
